@@ -57,7 +57,51 @@ const REQUIRE_LOCAL_BLOB_FETCH: bool = false;
 /// consumer's port request is never answered, so `get()` yields neither data nor an error.
 /// While this constant is true, cases with a transport cut use `shared_send_queue = 16` on all
 /// endpoints so that the credit return never finds the event queue full.
-const EXCLUDE_PARKED_CREDIT_RETURN_DEADLOCK: bool = true;
+const EXCLUDE_PARKED_CREDIT_RETURN_DEADLOCK: bool = false;
+
+/// GENUINE FINDING (replays: findings/C20-lazy-fetch-blocked-by-abandoned-get-{a,b}.json): a
+/// `LazyBlob::get()` / `Lazy::get()` future that is dropped while pending leaves the *inner* fetch
+/// future alive but unpolled inside the object (`fetch_task`, an `Arc<Mutex<Option<MaybeDone<..>>>>`
+/// that only the next `get()` / `into_inner()` on that object polls again). When the fetch was at
+/// that moment waiting for a slot of the connection's shared event queue
+/// (`chmux::Receiver::recv` -> `ChannelCreditReturner::return_flush` -> `tx.reserve()`, reached
+/// when the credit return found the queue full), the parked future keeps its place in the FIFO
+/// queue of that semaphore: the next free slot is assigned to it and never used. With
+/// `shared_send_queue = 1` every other user of that multiplexer (credit returns and data of the
+/// forwarders on that endpoint, requests of other holders) waits behind it until the abandoning
+/// holder calls `get()` again or drops its object: another holder's `get()` yields neither data
+/// nor an error (signature `C20/lazy-fetch-blocked-after-abandon`; in the replays the blocked
+/// fetch delivers the full data immediately after the abandoning holder's object is dropped).
+/// Same family as commit 71ffdac (parked credit return), different site: there the library made
+/// `recv()` cancel-safe, here the not-cancelled inner future is retained by the lazy object.
+/// While this constant is true, cases in which some holder leaves an abandoned fetch unresolved at
+/// the end of its script (no later get / into_inner / drop) use `shared_send_queue = 16` on all
+/// endpoints, so that the credit return never finds the event queue full. Cases in which every
+/// abandoned fetch is later resumed or dropped keep the small queues (the blockage is temporary
+/// there and the oracle stays unchanged).
+const EXCLUDE_ABANDONED_FETCH_PARKED_QUEUE_SLOT: bool = true;
+
+/// GENUINE FINDING (replays: findings/C20-lazy-not-released-after-abandoned-fetch-{a,b}.json):
+/// when a holder drops its `LazyBlob` while its abandoned fetch is still in flight and the binary
+/// channel of that fetch passes two or more forwarding endpoints in chunk mode (blob larger than
+/// the forwarders' `max_data_size`), the blob data is never released (drop guard never fires) and
+/// forwarding tasks and ports stay allocated for ever. `chmux::forward::forward` runs its sender
+/// with `override_graceful_close = true`. The forwarder next to the holder sees its sender closed,
+/// calls `rx.close()` (ReceiveClose upstream, a *graceful* close), fails on its next chunk send
+/// and drops its receiver (ReceiveFinish upstream). In `chmux/mux.rs` the `ReceiveFinish` handler
+/// calls `sender_credit_provider.close(false)` only when `remote_receiver_closed` is not yet set;
+/// after the earlier ReceiveClose it is set, so `closed` stays `Some(true)`. The upstream
+/// forwarder, waiting in `CreditUser::request` for credits for its next chunk, ignores a graceful
+/// close because of the override and is never told that the receiver is gone: it waits for ever,
+/// keeps its own receiver open without returning credits, and the provider's send task (which
+/// owns a clone of the data) stays blocked behind it. Experiment (scratch build, reverted): calling
+/// `close(false)` on every ReceiveFinish makes all replays pass and the whole quick tier silent.
+/// The trigger needs a receiver that goes away in the middle of a chunked transfer, i.e. an
+/// abandoned fetch; fetches awaited to completion never produce it.
+/// While this constant is true, cases in which a holder may drop its object with an abandoned,
+/// unfinished fetch after three or more forwards use `max_data_size = 65536` on all endpoints
+/// (forwarders then receive the whole blob before they pass it on and never fail mid-message).
+const EXCLUDE_FORWARDER_STUCK_AFTER_CLOSE_THEN_DROP: bool = false;
 
 // ---------------------------------------------------------------------------------------------
 // Network of 2..4 endpoints.
@@ -1236,7 +1280,769 @@ pub fn run_lazy(case: &LCase) -> Outcome {
     out
 }
 
-pub const RULE: &str = "part handle: cases = (2..4 endpoints in a chain or ring of chmux connections with generated Cfg, schedule, 1..2 values (Handle::new or Handle::provided, origins generated) each carrying a drop counter, script of clone / drop / cast / send over a neighbouring connection / as_ref / as_mut / into_inner / provider keep or drop / pause, generated order of the final drops); reference model per instance (token = one serialization on the origin; resolvable = never left the origin or first return of its token over the same connection); oracles = a deref on a foreign endpoint, at a cast type or after into_inner took the value must be an error; a value returned must be the original one incl. as_mut history; success is mandatory for handles that never left the origin and for the documented single round trip while the provider is alive; drop counter <= 1, == 1 right after into_inner on the origin, == 0 while a handle that must resolve exists (provider alive), == 1 within the virtual deadline once no handle exists on any endpoint or the provider is dropped and no handle is left on the origin (connections alive). non-trivial = a handle crossed a connection AND a deref was attempted on a travelled handle AND a mandatory release was observed. part lazy: cases = (2..4 endpoints chain, Cfg, schedule, Lazy<T> or LazyBlob of a size around chunk sizes / receive buffers, origin, 0..3 forwards incl. back to the origin, provider kept / held / dropped before send / before get, blob clones kept on intermediate endpoints, get / get twice / into_inner / no fetch, optional transport fault on a generated connection after a generated number of frames); oracles = fetched data equals the provided data (never shorter), LazyBlob::len equals, an error is acceptable only with a cut, a dropped provider or a never-sent blob, every fetch ends within the virtual deadline, the stored value (drop guard) is released after provider drop / after all consumers are dropped (healthy connections only). non-trivial = at least one forward AND (data compared OR error observed after the cut fired); distinct = distinct case hash";
+// ---------------------------------------------------------------------------------------------
+// Part "abandon": several holders of one lazy object, fetches that are started and abandoned.
+// ---------------------------------------------------------------------------------------------
+//
+// One `LazyBlob` (or `Lazy<T>`) is created on the origin. 1..3 holders are derived from it: clones
+// made on the origin before anything is sent (each travelling its own route of connections), or
+// clones of an earlier holder's instance made on that holder's endpoint and forwarded further (or
+// kept there: a local twin that shares the fetch cache). Every holder then runs its script as an
+// actor of its own, concurrently with the others: `get()` to completion, `get()` polled until it
+// has been pending n times and then dropped (`CancelAfter`), pause, `into_inner()`, drop. Receive
+// buffers are small (64..1024 bytes) and blobs are mostly larger than them, so an abandoned fetch
+// leaves a transfer stalled under flow control somewhere between the provider and the holder.
+//
+// `Lazy<T>` is not `Clone`: there the additional holders share the first holder's instance through
+// an `Arc` (local twins; `Lazy::get` takes `&self`).
+
+#[derive(Clone, Copy, Debug, Serialize, Deserialize, PartialEq, Eq, Hash)]
+pub enum AStep {
+    /// `get()` awaited to completion.
+    Get,
+    /// `get()` polled until it has been pending `polls` times, dropped at the next wake-up
+    /// (`polls == 0`: created and dropped without a poll). The object is kept.
+    GetCancel { polls: u8 },
+    /// `into_inner()`; consumes the holder's object.
+    Take,
+    Pause,
+    /// The holder drops its object (end of its script).
+    Drop,
+}
+
+#[derive(Clone, Debug, Serialize, Deserialize, PartialEq, Eq, Hash)]
+pub struct AHolder {
+    /// Holder i > 0: `src % (i + 1) == 0` = clone of the original made on the origin before any
+    /// send; otherwise clone of holder `src % (i + 1) - 1` made on that holder's final endpoint.
+    /// Holder 0 is the original itself.
+    pub src: u8,
+    /// Moves: the `via`-th lane leaving the current endpoint.
+    pub route: Vec<u8>,
+    pub script: Vec<AStep>,
+}
+
+#[derive(Clone, Copy, Debug, Serialize, Deserialize, PartialEq, Eq, Hash)]
+pub enum AProv {
+    /// `provider.keep()`.
+    Kept,
+    /// Provider object held until every holder has finished its script, dropped afterwards.
+    Held,
+    /// Provider dropped by an actor of its own while the scripts run (after a pause code).
+    DropDuring { after: u8 },
+}
+
+#[derive(Clone, Debug, Serialize, Deserialize, PartialEq, Eq, Hash)]
+pub struct ACase {
+    pub n: u8,
+    pub ring: bool,
+    pub cfgs: Vec<GCfg>,
+    pub sched: Sched,
+    pub blob: bool,
+    pub len_sel: u8,
+    pub len_off: i8,
+    pub len_abs: Option<u16>,
+    pub origin: u8,
+    pub holders: Vec<AHolder>,
+    pub provider: AProv,
+    /// Held provider: dropped before (true) or after the leftover holder objects.
+    pub provider_first: bool,
+    /// Selection keys: order in which leftover holder objects are dropped at the end.
+    pub drop_order: Vec<u8>,
+}
+
+fn acfg_strategy() -> BoxedStrategy<GCfg> {
+    (
+        prop_oneof![2 => Just(16u32), 2 => Just(64u32), 1 => Just(256u32), 2 => 8u32..=96],
+        prop_oneof![2 => Just(64u32), 2 => Just(128u32), 1 => Just(256u32), 1 => Just(1024u32), 2 => 64u32..=1024],
+        1usize..=3,
+        1usize..=3,
+        1usize..=3,
+        prop_oneof![2 => Just(256usize), 2 => Just(1024usize), 2 => Just(1usize << 16), 1 => 200usize..=700],
+    )
+        .prop_map(|(chunk_size, receive_buffer, shared_q, tsend_q, trecv_q, max_data_size)| GCfg {
+            chunk_size,
+            receive_buffer,
+            max_data_size,
+            shared_q,
+            tsend_q,
+            trecv_q,
+            connect_queue: 4,
+            max_ports: 128,
+            max_received_ports: 32,
+            timeout_s: Some(60),
+        })
+        .boxed()
+}
+
+pub fn astrategy(_tier: Tier) -> BoxedStrategy<ACase> {
+    let step = prop_oneof![
+        4 => Just(AStep::Get),
+        5 => prop_oneof![1 => Just(0u8), 6 => 1u8..=8, 3 => 9u8..=40].prop_map(|polls| AStep::GetCancel { polls }),
+        1 => Just(AStep::Take),
+        2 => Just(AStep::Pause),
+        1 => Just(AStep::Drop),
+    ];
+    let holder = (
+        any::<u8>(),
+        prop_oneof![1 => Just(Vec::new()), 8 => proptest::collection::vec(any::<u8>(), 1..=3)],
+        proptest::collection::vec(step, 1..=4),
+    )
+        .prop_map(|(src, route, script)| AHolder { src, route, script });
+    (
+        (2u8..=4, any::<bool>(), proptest::collection::vec(acfg_strategy(), 4), sched(true)),
+        (prop_oneof![4 => Just(true), 1 => Just(false)], any::<u8>(), -1i8..=1, prop_oneof![5 => Just(None), 2 => (0u16..=4096).prop_map(Some), 1 => (0u16..=64).prop_map(Some)]),
+        0u8..4,
+        proptest::collection::vec(holder, 1..=3),
+        prop_oneof![3 => Just(AProv::Kept), 3 => Just(AProv::Held), 2 => any::<u8>().prop_map(|after| AProv::DropDuring { after })],
+        any::<bool>(),
+        proptest::collection::vec(any::<u8>(), 0..4),
+    )
+        .prop_map(|((n, ring, mut cfgs, sched), (blob, len_sel, len_off, len_abs), origin, holders, provider, provider_first, drop_order)| {
+            if EXCLUDE_ABANDONED_FETCH_PARKED_QUEUE_SLOT && holders.iter().any(|h| leaves_abandoned_fetch(&h.script)) {
+                for c in cfgs.iter_mut() {
+                    c.shared_q = 16;
+                }
+            }
+            if EXCLUDE_FORWARDER_STUCK_AFTER_CLOSE_THEN_DROP {
+                let (src, routes) = resolve_holders(blob, &holders);
+                let mut hops: Vec<usize> = Vec::new();
+                for i in 0..holders.len() {
+                    hops.push(src[i].map(|j| hops[j]).unwrap_or(0) + routes[i].len());
+                }
+                if (0..holders.len()).any(|i| hops[i] >= 3 && drops_abandoned_fetch(&holders[i].script)) {
+                    for c in cfgs.iter_mut() {
+                        c.max_data_size = 1 << 16;
+                    }
+                }
+            }
+            ACase {
+            n,
+            ring,
+            cfgs,
+            sched,
+            blob,
+            len_sel,
+            len_off,
+            len_abs,
+            origin,
+            holders,
+            provider,
+            provider_first,
+            drop_order,
+            }
+        })
+        .boxed()
+}
+
+/// True when the script can end with a started, abandoned fetch that is neither resumed (get /
+/// into_inner) nor released (drop) by the same holder afterwards.
+fn leaves_abandoned_fetch(script: &[AStep]) -> bool {
+    let mut parked = false;
+    for s in script {
+        match s {
+            AStep::GetCancel { polls } if *polls > 0 => parked = true,
+            AStep::GetCancel { .. } | AStep::Pause => {}
+            AStep::Get => parked = false,
+            AStep::Take | AStep::Drop => return false,
+        }
+    }
+    parked
+}
+
+/// True when the holder's object can be dropped (by a Drop step or at the end of the case) while
+/// a started, abandoned fetch of it has not been completed by a later get / into_inner.
+fn drops_abandoned_fetch(script: &[AStep]) -> bool {
+    let mut parked = false;
+    for s in script {
+        match s {
+            AStep::GetCancel { polls } if *polls > 0 => parked = true,
+            AStep::GetCancel { .. } | AStep::Pause => {}
+            AStep::Get => parked = false,
+            AStep::Take => return false,
+            AStep::Drop => return parked,
+        }
+    }
+    parked
+}
+
+/// Source and route of every holder. src[i] = None: derived from the original on the origin;
+/// Some(j): clone of holder j made on j's final endpoint (empty route: local twin).
+fn resolve_holders(blob: bool, holders: &[AHolder]) -> (Vec<Option<usize>>, Vec<Vec<u8>>) {
+    let mut src: Vec<Option<usize>> = Vec::new();
+    let mut routes: Vec<Vec<u8>> = Vec::new();
+    for (i, h) in holders.iter().enumerate() {
+        if i == 0 {
+            src.push(None);
+            routes.push(h.route.clone());
+        } else if !blob {
+            // Lazy<T> cannot be cloned: further holders share holder 0's instance.
+            src.push(Some(0));
+            routes.push(Vec::new());
+        } else {
+            let s = h.src as usize % (i + 1);
+            src.push(if s == 0 { None } else { Some(s - 1) });
+            // A clone of an earlier holder travels at most two further connections.
+            routes.push(if s == 0 { h.route.clone() } else { h.route.iter().copied().take(2).collect() });
+        }
+    }
+    (src, routes)
+}
+
+fn aresolve_len(c: &ACase) -> usize {
+    let n = c.n as usize;
+    let min_mds = c.cfgs[..n].iter().map(|g| g.max_data_size).min().unwrap_or(256);
+    // A lazily sent *value* is a typed item: keep it below every max_data_size (see cfg_strategy).
+    let max = if c.blob { 6000 } else { min_mds.saturating_sub(64).min(6000) };
+    if let Some(a) = c.len_abs {
+        return (a as usize).min(max);
+    }
+    let mut bases: Vec<usize> = Vec::new();
+    for cfg in &c.cfgs[..n] {
+        let (cs, rb) = (cfg.chunk_size as usize, cfg.receive_buffer as usize);
+        bases.extend([rb + 1, 2 * rb, rb + cs, 3 * rb + 1, 2 * rb + cs, 4 * rb, rb / 2, 3 * cs]);
+    }
+    let base = bases[c.len_sel as usize % bases.len()] as i64;
+    (base + c.len_off as i64).clamp(0, max as i64) as usize
+}
+
+enum AObj {
+    B(LazyBlob),
+    L(Arc<Lazy<LVal>>),
+}
+
+impl AObj {
+    fn twin(&self) -> AObj {
+        match self {
+            AObj::B(b) => AObj::B(b.clone()),
+            AObj::L(l) => AObj::L(l.clone()),
+        }
+    }
+}
+
+struct AShared {
+    /// Set immediately before the provider object is dropped.
+    provider_dropped: std::sync::atomic::AtomicBool,
+    /// Completion order of fetches and abandonments over all actors.
+    seq: AtomicU32,
+}
+
+enum ARecKind {
+    Fetched(Fetched),
+    /// The pending `get()` future was dropped after `polls` pending polls.
+    Abandoned { polls: u8 },
+}
+
+struct ARec {
+    step: usize,
+    seq: u32,
+    /// Provider already dropped when the result was observed.
+    prov_dropped: bool,
+    kind: ARecKind,
+}
+
+fn conv_blob(r: Result<Result<remoc::chmux::DataBuf, remoc::robj::lazy_blob::FetchError>, ()>) -> Fetched {
+    match r {
+        Ok(Ok(v)) => Fetched::Data(Vec::from(v), 7),
+        Ok(Err(e)) => Fetched::Err(format!("{e:?}")),
+        Err(()) => Fetched::Hang,
+    }
+}
+
+async fn holder_actor(obj: AObj, script: Vec<AStep>, deadline: u64, tape: sim::Tape, sh: Arc<AShared>) -> (Vec<ARec>, Option<AObj>) {
+    use sim::{CancelAfter, Cancelled};
+    let mut recs: Vec<ARec> = Vec::new();
+    let mut obj = Some(obj);
+    for (si, st) in script.iter().enumerate() {
+        if obj.is_none() {
+            break;
+        }
+        let kind = match st {
+            AStep::Pause => {
+                tape_pause(&tape, true).await;
+                None
+            }
+            AStep::Drop => {
+                obj = None;
+                None
+            }
+            AStep::Get => Some(ARecKind::Fetched(match obj.as_ref().unwrap() {
+                AObj::B(b) => conv_blob(sim::within(deadline, b.get()).await),
+                AObj::L(l) => match sim::within(deadline, l.get()).await {
+                    Ok(Ok(v)) => Fetched::Data(v.body.clone().into_bytes(), v.tag),
+                    Ok(Err(e)) => Fetched::Err(format!("{e:?}")),
+                    Err(()) => Fetched::Hang,
+                },
+            })),
+            AStep::GetCancel { polls } => {
+                let n = Some(*polls as u32);
+                let f = match obj.as_ref().unwrap() {
+                    AObj::B(b) => match sim::within(deadline, CancelAfter::new(b.get(), n)).await {
+                        Ok(Cancelled::Done(r)) => Some(conv_blob(Ok(r))),
+                        Ok(Cancelled::Dropped) => None,
+                        Err(()) => Some(Fetched::Hang),
+                    },
+                    AObj::L(l) => match sim::within(deadline, CancelAfter::new(l.get(), n)).await {
+                        Ok(Cancelled::Done(Ok(v))) => Some(Fetched::Data(v.body.clone().into_bytes(), v.tag)),
+                        Ok(Cancelled::Done(Err(e))) => Some(Fetched::Err(format!("{e:?}"))),
+                        Ok(Cancelled::Dropped) => None,
+                        Err(()) => Some(Fetched::Hang),
+                    },
+                };
+                Some(match f {
+                    Some(f) => ARecKind::Fetched(f),
+                    None => ARecKind::Abandoned { polls: *polls },
+                })
+            }
+            AStep::Take => Some(ARecKind::Fetched(match obj.take().unwrap() {
+                AObj::B(b) => conv_blob(sim::within(deadline, b.into_inner()).await),
+                AObj::L(l) => match Arc::try_unwrap(l) {
+                    Ok(l) => match sim::within(deadline, l.into_inner()).await {
+                        Ok(Ok(v)) => Fetched::Data(v.body.into_bytes(), v.tag),
+                        Ok(Err(e)) => Fetched::Err(format!("{e:?}")),
+                        Err(()) => Fetched::Hang,
+                    },
+                    // Shared with a twin: fetch through the reference, then let go.
+                    Err(l) => match sim::within(deadline, l.get()).await {
+                        Ok(Ok(v)) => Fetched::Data(v.body.clone().into_bytes(), v.tag),
+                        Ok(Err(e)) => Fetched::Err(format!("{e:?}")),
+                        Err(()) => Fetched::Hang,
+                    },
+                },
+            })),
+        };
+        if let Some(kind) = kind {
+            let hang = matches!(kind, ARecKind::Fetched(Fetched::Hang));
+            recs.push(ARec {
+                step: si,
+                seq: sh.seq.fetch_add(1, Ordering::SeqCst),
+                prov_dropped: sh.provider_dropped.load(Ordering::SeqCst),
+                kind,
+            });
+            if hang {
+                break;
+            }
+        }
+    }
+    (recs, obj)
+}
+
+#[derive(Default)]
+pub struct AOut {
+    pub fails: Vec<(String, String)>,
+    pub classes: Vec<String>,
+    pub frames: u64,
+    /// Fetches abandoned after at least one poll.
+    pub abandoned: u32,
+    /// Fetches whose data was compared and that completed after an abandonment in the same run.
+    pub compared_after_abandon: u32,
+    pub compared: u32,
+}
+
+impl AOut {
+    fn fail(&mut self, sig: &str, msg: String) {
+        self.fails.push((sig.to_string(), msg));
+    }
+    fn class(&mut self, c: &str) {
+        if !self.classes.iter().any(|x| x == c) {
+            self.classes.push(c.to_string());
+        }
+    }
+}
+
+fn debug_dump<P>(net: &Net<P>) {
+    if std::env::var("VERIF_DEBUG").is_err() {
+        return;
+    }
+    for (k, l) in net.links.iter().enumerate() {
+        eprintln!("--- link {k} ({}-{}) sent {} / {} delivered {} / {}", net.ends[k].0, net.ends[k].1, l.sent(0), l.sent(1), l.delivered(0), l.delivered(1));
+        let st = crate::engine::wire::analyze(&l.tap());
+        eprintln!("  dispatcher finished: {} / {}", net.keep[k].0.run.is_finished(), net.keep[k].1.run.is_finished());
+        let show_pings = std::env::var("VERIF_DEBUG").map(|v| v == "2").unwrap_or(false);
+        for m in st.msgs.iter().filter(|m| !matches!(m.msg, crate::engine::refcodec::RefMsg::Hello { .. }) && (show_pings || !matches!(m.msg, crate::engine::refcodec::RefMsg::Ping))) {
+            eprintln!("  t={} dir={} {} {:?} payload={:?}", m.t_ms, m.dir, if m.delivered { "dlv" } else { "put" }, m.msg, m.payload.as_ref().map(|p| p.len()));
+        }
+    }
+}
+
+async fn execute_abandon(case: &ACase) -> AOut {
+    let mut out = AOut::default();
+    let n = case.n as usize;
+    let ring = case.ring;
+    let cap = cap_ms(&case.cfgs);
+    let len = aresolve_len(case);
+    let tape = case.sched.tape();
+    let min_chunk = case.cfgs[..n].iter().map(|c| c.chunk_size.min(c.receive_buffer) as u64).min().unwrap_or(8).max(1);
+    let nh = case.holders.len();
+
+    let (src, routes) = resolve_holders(case.blob, &case.holders);
+    let total_hops: u64 = routes.iter().map(|r| r.len() as u64 + 1).sum::<u64>() + 3 * nh as u64;
+    let frames_est = 400 + (len as u64 / min_chunk + 8) * 4 * total_hops;
+    let deadline = case.sched.deadline_s(frames_est, cap) + 600;
+
+    let mut net: Net<LParcel> = match build_net(n, ring, &case.cfgs, &case.sched).await {
+        Ok(x) => x,
+        Err(e) => {
+            out.fail("C20/setup", e);
+            return out;
+        }
+    };
+    let origin = case.origin as usize % n;
+    let data = body(len);
+    let drops = Arc::new(AtomicU32::new(0));
+    let guard = DropGuard(drops.clone());
+    enum Prov {
+        L(remoc::robj::lazy::Provider),
+        B(remoc::robj::lazy_blob::Provider),
+    }
+    let (original, provider) = if case.blob {
+        let bytes = Bytes::from_owner(BlobOwner { data: data.clone(), _guard: guard });
+        let (b, p) = LazyBlob::provided(bytes);
+        (Consumer::B(b), Prov::B(p))
+    } else {
+        let v = LVal { tag: 7, body: String::from_utf8(data.clone()).unwrap() };
+        let (l, p) = Lazy::provided_future(async move {
+            let g = guard;
+            let v = v;
+            drop(g);
+            v
+        });
+        (Consumer::L(l), Prov::L(p))
+    };
+    let sh = Arc::new(AShared { provider_dropped: std::sync::atomic::AtomicBool::new(false), seq: AtomicU32::new(0) });
+    let mut provider = match case.provider {
+        AProv::Kept => {
+            match provider {
+                Prov::L(p) => p.keep(),
+                Prov::B(p) => p.keep(),
+            }
+            None
+        }
+        AProv::Held | AProv::DropDuring { .. } => Some(provider),
+    };
+    out.class(match case.provider {
+        AProv::Kept => "ab:provider:kept",
+        AProv::Held => "ab:provider:held-dropped-afterwards",
+        AProv::DropDuring { .. } => "ab:provider:dropped-during",
+    });
+
+    // Clones made on the origin before anything is sent.
+    let mut pending: Vec<Option<Consumer>> = Vec::new();
+    for i in 0..nh {
+        pending.push(match (&original, src[i], i) {
+            (Consumer::B(b), None, i) if i > 0 => Some(Consumer::B(b.clone())),
+            _ => None,
+        });
+    }
+    pending[0] = Some(original);
+
+    // Travel, holder by holder.
+    // placed[i] = (object, endpoint, hops)
+    let mut placed: Vec<(AObj, usize, u32)> = Vec::new();
+    for i in 0..nh {
+        let (mut cur_obj, mut cur, mut hops) = match src[i] {
+            None => (pending[i].take().unwrap(), origin, 0u32),
+            Some(j) => {
+                let (e, h) = (placed[j].1, placed[j].2);
+                if routes[i].is_empty() {
+                    // Local twin: shares the fetch cache of holder j.
+                    out.class("ab:twin");
+                    let t = placed[j].0.twin();
+                    placed.push((t, e, h));
+                    continue;
+                }
+                match &placed[j].0 {
+                    AObj::B(b) => (Consumer::B(b.clone()), e, h),
+                    AObj::L(_) => unreachable!("Lazy holders beyond the first are always twins"),
+                }
+            }
+        };
+        if src[i].is_some() {
+            out.class("ab:forwarded-from-holder");
+        }
+        for via in &routes[i] {
+            let exits = net.exits(cur);
+            let (k, d, dest) = exits[*via as usize % exits.len()];
+            let parcel = match cur_obj {
+                Consumer::L(l) => LParcel::L(l),
+                Consumer::B(b) => LParcel::B(b),
+            };
+            match xfer(&mut net, k, d, parcel, deadline).await {
+                Ok(LParcel::L(l)) => cur_obj = Consumer::L(l),
+                Ok(LParcel::B(b)) => cur_obj = Consumer::B(b),
+                Err(e) => {
+                    out.fail("C20/transfer-failed", format!("sending the lazy object of holder {i} over healthy link {k} dir {d} failed: {e}"));
+                    return out;
+                }
+            }
+            cur = dest;
+            hops += 1;
+        }
+        let obj = match cur_obj {
+            Consumer::B(b) => {
+                match b.len() {
+                    Ok(l) if l == len => {}
+                    other => out.fail("C20/lazy-wrong-len", format!("LazyBlob::len() = {other:?} on holder {i} after {hops} forwards, provided {len} bytes")),
+                }
+                AObj::B(b)
+            }
+            Consumer::L(l) => AObj::L(Arc::new(l)),
+        };
+        placed.push((obj, cur, hops));
+    }
+    drop(pending);
+    if !out.fails.is_empty() {
+        return out;
+    }
+    out.class(&format!("ab:{}:holders={nh}", if case.blob { "blob" } else { "value" }));
+    {
+        let mut eps: Vec<usize> = placed.iter().map(|p| p.1).collect();
+        eps.sort();
+        eps.dedup();
+        if eps.len() > 1 {
+            out.class("ab:holders-on-different-endpoints");
+        }
+    }
+    let meta: Vec<(usize, u32)> = placed.iter().map(|(_, e, h)| (*e, *h)).collect();
+
+    // Run the scripts concurrently, one actor per holder (plus the provider dropper).
+    let mut handles = Vec::new();
+    for (i, (obj, _, _)) in placed.into_iter().enumerate() {
+        handles.push(sim::spawn_actor(holder_actor(obj, case.holders[i].script.clone(), deadline, tape.clone(), sh.clone())));
+    }
+    let dropper = if let AProv::DropDuring { after } = case.provider {
+        let p = provider.take();
+        let sh = sh.clone();
+        Some(sim::spawn_actor(async move {
+            match after {
+                0..=99 => sim::ticks(after as u32 % 25).await,
+                _ => tokio::time::sleep(Duration::from_millis([1u64, 10, 100, 1000, 5000][after as usize % 5])).await,
+            }
+            sh.provider_dropped.store(true, Ordering::SeqCst);
+            drop(p);
+        }))
+    } else {
+        None
+    };
+    let max_steps = case.holders.iter().map(|h| h.script.len() as u64).max().unwrap_or(1);
+    let overall = deadline * (max_steps + 1) + 100;
+    let mut results: Vec<(Vec<ARec>, Option<AObj>)> = Vec::new();
+    for (i, h) in handles.into_iter().enumerate() {
+        match sim::within(overall, h).await {
+            Ok(Ok(r)) => results.push(r),
+            Ok(Err(e)) => {
+                out.fail("C20/actor-died", format!("actor of holder {i} ended abnormally: {e}"));
+                results.push((Vec::new(), None));
+            }
+            Err(()) => {
+                out.fail("C20/lazy-fetch-hangs", format!("actor of holder {i} did not finish within {overall} virtual s"));
+                results.push((Vec::new(), None));
+            }
+        }
+    }
+    if let Some(d) = dropper {
+        let _ = sim::within(overall, d).await;
+    }
+    if std::env::var("VERIF_DEBUG").map(|v| v == "3").unwrap_or(false) {
+        debug_dump(&net);
+    }
+
+    // Judge.
+    let first_abandon: Option<u32> = results
+        .iter()
+        .flat_map(|(r, _)| r.iter())
+        .filter(|r| matches!(r.kind, ARecKind::Abandoned { polls } if polls > 0))
+        .map(|r| r.seq)
+        .min();
+    let mut leftovers: Vec<AObj> = Vec::new();
+    // (holder, object) of holders that kept a started, unfinished fetch; holders whose get hung.
+    let mut parked: Vec<(usize, AObj)> = Vec::new();
+    let mut hung: Vec<(usize, String, String)> = Vec::new();
+    for (i, (recs, left)) in results.into_iter().enumerate() {
+        let (ep, h) = meta[i];
+        let rb = case.cfgs[ep].receive_buffer as usize;
+        let mut own_abandon = false;
+        let mut finished = false;
+        for r in recs {
+            let after_abandon = first_abandon.map(|a| r.seq > a).unwrap_or(false);
+            let ctx = format!(
+                "{} of {len} bytes, holder {i} on endpoint {ep} (origin {origin}, receive buffer {rb}) after {h} forwards, script step {} {:?}, provider {:?} (dropped when observed: {}), completed after an abandoned fetch: {after_abandon}",
+                if case.blob { "LazyBlob" } else { "Lazy" },
+                r.step,
+                case.holders[i].script[r.step],
+                case.provider,
+                r.prov_dropped
+            );
+            match r.kind {
+                ARecKind::Abandoned { polls } => {
+                    if polls > 0 {
+                        out.abandoned += 1;
+                        if !finished {
+                            own_abandon = true;
+                            out.class(if len > rb { "ab:abandoned:len>receive-buffer" } else { "ab:abandoned:len<=receive-buffer" });
+                        } else {
+                            out.class("ab:abandoned-after-cached");
+                        }
+                    } else {
+                        out.class("ab:dropped-unpolled");
+                    }
+                }
+                ARecKind::Fetched(Fetched::Hang) => {
+                    // The listed finding (parked queue slot) lives only in the territory the generator
+                    // excludes: a holder that leaves an abandoned fetch unresolved on a network with a
+                    // small shared event queue. Its signature says so; anywhere else a blocked fetch
+                    // is a violation of its own.
+                    let parked_slot = case.holders.iter().any(|h| leaves_abandoned_fetch(&h.script)) && case.cfgs.iter().any(|c| c.shared_q < 16);
+                    let sig = if (after_abandon || own_abandon) && parked_slot {
+                        "C20/lazy-fetch-blocked-after-abandon/parked-queue-slot"
+                    } else if after_abandon || own_abandon {
+                        "C20/lazy-fetch-blocked-after-abandon"
+                    } else {
+                        "C20/lazy-fetch-hangs"
+                    };
+                    hung.push((i, sig.to_string(), format!("{ctx}: neither data nor an error within {deadline} virtual s")));
+                }
+                ARecKind::Fetched(Fetched::Data(got, tag)) => {
+                    out.compared += 1;
+                    if got != data || tag != 7 {
+                        let sig = if got.len() < data.len() { "C20/lazy-truncated" } else { "C20/lazy-wrong-data" };
+                        let first_diff = got.iter().zip(data.iter()).position(|(a, b)| a != b);
+                        out.fail(sig, format!("{ctx}: got {} bytes (tag {tag}), first difference at {first_diff:?}", got.len()));
+                    } else {
+                        finished = true;
+                        if after_abandon {
+                            out.compared_after_abandon += 1;
+                        }
+                        if own_abandon {
+                            out.class("ab:resumed-own-abandoned-fetch-ok");
+                        } else if after_abandon {
+                            out.class("ab:other-holder-ok-after-abandon");
+                        } else {
+                            out.class("ab:fetched-equal");
+                        }
+                    }
+                }
+                ARecKind::Fetched(Fetched::Err(e)) => {
+                    let local_blob = case.blob && h == 0;
+                    let required = !r.prov_dropped && (!local_blob || REQUIRE_LOCAL_BLOB_FETCH);
+                    if required {
+                        out.fail(
+                            "C20/lazy-fetch-failed",
+                            format!("{ctx}: error {e} although every connection is healthy and the provider is alive"),
+                        );
+                    } else if r.prov_dropped {
+                        finished = true;
+                        out.class("ab:error-provider-dropped");
+                    } else {
+                        finished = true;
+                        out.class("ab:blob-local-get-err");
+                    }
+                }
+            }
+        }
+        if let Some(o) = left {
+            if own_abandon && !finished && !hung.iter().any(|h| h.0 == i) {
+                out.class("ab:abandoned-fetch-kept-to-the-end");
+                parked.push((i, o));
+            } else {
+                leftovers.push(o);
+            }
+        }
+    }
+    // Diagnosis of a hang: does the same fetch end once the objects that hold an abandoned,
+    // unfinished fetch are dropped? (Tells a blocked fetch from a lost one; part of the message only.)
+    if let Some((i, sig, msg)) = hung.into_iter().next() {
+        let holders: Vec<usize> = parked.iter().map(|p| p.0).collect();
+        parked.clear();
+        let again = if case.holders[i].script.iter().any(|s| matches!(s, AStep::Take)) || holders.is_empty() {
+            "not tried".to_string()
+        } else {
+            // The hung holder's object is among the leftovers only if its script did not consume it;
+            // a fresh get() on any leftover twin of it resumes the same stored fetch.
+            let mut res = "not tried (object consumed)".to_string();
+            for o in &leftovers {
+                let r = match o {
+                    AObj::B(b) => match sim::within(deadline, b.get()).await {
+                        Ok(Ok(v)) => format!("data ({} bytes)", Vec::from(v).len()),
+                        Ok(Err(e)) => format!("error {e:?}"),
+                        Err(()) => "still pending".to_string(),
+                    },
+                    AObj::L(l) => match sim::within(deadline, l.get()).await {
+                        Ok(Ok(v)) => format!("data ({} bytes)", v.body.len()),
+                        Ok(Err(e)) => format!("error {e:?}"),
+                        Err(()) => "still pending".to_string(),
+                    },
+                };
+                res = r;
+                if res == "still pending" {
+                    break;
+                }
+            }
+            res
+        };
+        out.fail(&sig, format!("{msg}; after dropping the objects of holders {holders:?} (which keep an abandoned, unfinished fetch) a get() on every remaining holder gives: {again}"));
+    }
+    leftovers.extend(parked.into_iter().map(|p| p.1));
+
+    // Release of the stored value: demanded once every holder object on every endpoint is gone
+    // (abandoned, possibly stalled transfers included).
+    if out.fails.is_empty() {
+        if provider.is_some() && case.provider_first {
+            sh.provider_dropped.store(true, Ordering::SeqCst);
+            provider.take();
+        }
+        let mut k = 0usize;
+        while !leftovers.is_empty() {
+            let key = case.drop_order.get(k).copied().unwrap_or(0);
+            k += 1;
+            let i = key as usize % leftovers.len();
+            drop(leftovers.remove(i));
+            if key >= 128 {
+                sim::ticks(key as u32 % 4 + 1).await;
+            }
+        }
+        let (ok, waited) = wait_released(&drops, deadline).await;
+        if !ok {
+            out.fail(
+                if out.abandoned > 0 { "C20/lazy-not-released-after-abandon" } else { "C20/lazy-not-released" },
+                format!(
+                    "stored value not released {waited} virtual s after every holder on every endpoint was dropped ({} fetches had been abandoned, provider {:?}, dropped first: {})",
+                    out.abandoned, case.provider, case.provider_first
+                ),
+            );
+        } else {
+            out.class(if out.abandoned > 0 { "ab:release:after-abandoned-fetches" } else { "ab:release:consumers-dropped" });
+        }
+        let d = drops.load(Ordering::SeqCst);
+        if d > 1 {
+            out.fail("C20/double-drop", format!("lazy drop guard fired {d} times"));
+        }
+    }
+    if !out.fails.is_empty() {
+        debug_dump(&net);
+    }
+    out.frames = net.frames();
+    drop(leftovers);
+    drop(provider);
+    drop(net);
+    out
+}
+
+pub fn run_abandon(case: &ACase) -> Outcome {
+    let tape = case.sched.tape();
+    let res = sim::run_sim(case.sched.tokio_seed, &tape, case.sched.defer, execute_abandon(case));
+    let mut out = Outcome::default();
+    out.frames = res.frames;
+    if let Some((s, m)) = res.fails.first() {
+        out.fail(s.clone(), m.clone());
+    }
+    for c in &res.classes {
+        out.class(c.clone());
+    }
+    out.nontrivial = res.abandoned > 0 && res.compared_after_abandon > 0;
+    out
+}
+
+pub const RULE: &str = "part handle: cases = (2..4 endpoints in a chain or ring of chmux connections with generated Cfg, schedule, 1..2 values (Handle::new or Handle::provided, origins generated) each carrying a drop counter, script of clone / drop / cast / send over a neighbouring connection / as_ref / as_mut / into_inner / provider keep or drop / pause, generated order of the final drops); reference model per instance (token = one serialization on the origin; resolvable = never left the origin or first return of its token over the same connection); oracles = a deref on a foreign endpoint, at a cast type or after into_inner took the value must be an error; a value returned must be the original one incl. as_mut history; success is mandatory for handles that never left the origin and for the documented single round trip while the provider is alive; drop counter <= 1, == 1 right after into_inner on the origin, == 0 while a handle that must resolve exists (provider alive), == 1 within the virtual deadline once no handle exists on any endpoint or the provider is dropped and no handle is left on the origin (connections alive). non-trivial = a handle crossed a connection AND a deref was attempted on a travelled handle AND a mandatory release was observed. part lazy: cases = (2..4 endpoints chain, Cfg, schedule, Lazy<T> or LazyBlob of a size around chunk sizes / receive buffers, origin, 0..3 forwards incl. back to the origin, provider kept / held / dropped before send / before get, blob clones kept on intermediate endpoints, get / get twice / into_inner / no fetch, optional transport fault on a generated connection after a generated number of frames); oracles = fetched data equals the provided data (never shorter), LazyBlob::len equals, an error is acceptable only with a cut, a dropped provider or a never-sent blob, every fetch ends within the virtual deadline, the stored value (drop guard) is released after provider drop / after all consumers are dropped (healthy connections only). non-trivial = at least one forward AND (data compared OR error observed after the cut fired). part abandon: cases = (2..4 endpoints chain or ring, Cfg with receive buffers 64..1024 and chunks 8..256, schedule, LazyBlob (or Lazy<T>) of a size around 1..4 receive buffers (mostly larger than the buffer), 1..3 holders = clones made on the origin before sending, each sent over its own route of 0..3 connections, or clones of an earlier holder forwarded 1..2 connections further or kept as a local twin sharing the fetch cache (Lazy<T>: twins through an Arc), one script per holder out of get / get dropped after n pending polls (CancelAfter) / into_inner / pause / drop, all scripts run concurrently as actors, provider kept / held and dropped afterwards / dropped by an actor of its own during the scripts, generated final drop order); oracles = every completed fetch yields exactly the provided data, an error is acceptable only when the provider had already been dropped when the result was observed (or the blob was never sent), every get ends within the virtual deadline also while other holders' abandoned transfers are stalled under flow control, the stored value (drop guard) is released once every holder on every endpoint is dropped. non-trivial = a fetch was abandoned after >= 1 poll AND a fetch that completed later in the same run delivered data that was compared; distinct = distinct case hash";
 
 pub fn main(tier: Tier, seed: u64) -> Report {
     let mut rep = Report::new("C20", tier, seed);
@@ -1246,6 +2052,7 @@ pub fn main(tier: Tier, seed: u64) -> Report {
         "a local handle clone kept on the origin keeps the value alive after Provider drop (counted, not flagged): release after provider drop is demanded only when no handle is left on the origin".into(),
         "LazyBlob::get on a blob that was never sent returns FetchError::Dropped (counted as class lazy:blob-local-get-err, not flagged)".into(),
         "all items stay below max_data_size, so no helper threads exist and virtual deadlines are sound".into(),
+        "part abandon: after a provider drop an in-flight (possibly stalled) transfer may keep the data alive, so release is demanded only after every holder is dropped".into(),
         "single-threaded deterministic simulation; task-level interleavings only".into(),
     ];
     let regress: Vec<Case> = runner::load_regress::<Case>("C20", "handle").into_iter().map(|(_, c)| c).collect();
@@ -1258,12 +2065,21 @@ pub fn main(tier: Tier, seed: u64) -> Report {
     }
     runner::run_generated(&mut rep, "handle", tier.pick(24_000, 1_200_000), || strategy(tier), run_handle);
     runner::run_generated(&mut rep, "lazy", tier.pick(16_000, 800_000), || lstrategy(tier), run_lazy);
+    let regress: Vec<ACase> = runner::load_regress::<ACase>("C20", "abandon").into_iter().map(|(_, c)| c).collect();
+    if !regress.is_empty() {
+        runner::run_cases(&mut rep, "regress-abandon", regress, run_abandon);
+    }
+    runner::run_generated(&mut rep, "abandon", tier.pick(12_000, 600_000), || astrategy(tier), run_abandon);
     rep
 }
 
 pub fn replay(part: &str, case: serde_json::Value) -> (Option<runner::Failure>, u32, u32) {
     let n = runner::replay_times(3);
-    if part.contains("lazy") {
+    if part.contains("abandon") {
+        let c: ACase = serde_json::from_value(case).expect("replay case does not parse as C20 abandon case");
+        let (f, h) = runner::replay_case(&c, run_abandon, n);
+        (f, h, n)
+    } else if part.contains("lazy") {
         let c: LCase = serde_json::from_value(case).expect("replay case does not parse as C20 lazy case");
         let (f, h) = runner::replay_case(&c, run_lazy, n);
         (f, h, n)
